@@ -123,7 +123,7 @@ def main():
         for i in range(12 if quick else 60):
             ln = rnd.choice((3, 4) if quick else (4, 5, 6))
             seq = tuple(rnd.choice(ops) for _ in range(ln))
-            if sum(1 for o in seq if o.startswith('ins')) > MAXINS:
+            if sum(1 for o in seq if o.startswith('ins')) > 2:      # three insertions only in the exhaustive short sequences: the real DEPQ forks on every key order
                 continue
             jobs.append((seq_job, (dual, seq)))
         # the historical shapes: hinted insert, then the local / global best
